@@ -3,9 +3,9 @@ package dom
 import (
 	"encoding/json"
 	"fmt"
-	"strings"
 	"runtime"
 	"strconv"
+	"strings"
 	"sync"
 	"sync/atomic"
 	"time"
@@ -33,13 +33,14 @@ type note struct {
 }
 
 type recorder struct {
-	mu      sync.Mutex
-	notes   []note
-	byRep   map[string]int    // reply subject -> callback id
-	grp     map[int]string    // callback id -> group
-	rgroup  map[string]string // resource name -> group (for query expiry)
-	nilIDs  map[string][]int  // resource name -> ids allocated for pending expiry callbacks
-	nextNil int
+	mu         sync.Mutex
+	notes      []note
+	byRep      map[string]int         // reply subject -> callback id
+	grp        map[int]string         // callback id -> group
+	rgroup     map[string]string      // resource name -> group (for query expiry)
+	nilIDs     map[string][]int       // resource name -> ids allocated for pending expiry callbacks
+	pendingNil map[int][2]interface{} // goroutine -> (resource name, id) between the expiry note and its enqueue
+	nextNil    int
 }
 
 func goid() int {
@@ -72,11 +73,23 @@ func (r *recorder) add(point, wid string, n int) {
 			r.grp = map[int]string{}
 		}
 		r.grp[id] = wid
-		if r.nilIDs == nil {
-			r.nilIDs = map[string][]int{}
+		// the id is handed to the nil callbacks of this resource in the order in which the expiry
+		// callbacks are ENQUEUED (the note below is taken before that, outside the service mutex)
+		if r.pendingNil == nil {
+			r.pendingNil = map[int][2]interface{}{}
 		}
-		r.nilIDs[rname] = append(r.nilIDs[rname], id)
+		r.pendingNil[g] = [2]interface{}{rname, id}
 		n = id
+	case "s.enq.new", "s.enq.app":
+		if pn, ok := r.pendingNil[g]; ok {
+			delete(r.pendingNil, g)
+			if r.nilIDs == nil {
+				r.nilIDs = map[string][]int{}
+			}
+			r.nilIDs[pn[0].(string)] = append(r.nilIDs[pn[0].(string)], pn[1].(int))
+		}
+	case "s.refused", "s.refused.closed":
+		delete(r.pendingNil, g)
 	}
 	r.notes = append(r.notes, note{g, point, wid, n})
 	r.mu.Unlock()
